@@ -29,3 +29,11 @@ harness! {
         kani::cover!(true);
     }
 }
+
+// native replay slot (cargo kani playback): the driver points IPA_VERIF_REPLAY_DIR at a directory
+// holding one file per hook; the generated test calls the harness by its path relative to this module.
+#[cfg(test)]
+mod replay_here {
+    use super::*;
+    include!(concat!(env!("IPA_VERIF_REPLAY_DIR"), "/mac_validator.rs"));
+}
